@@ -18,7 +18,7 @@ from vf.engine.harness import Obligation
 from vf.engine.real import LogVal, SymReal, CONFIG
 from vf.engine.arr import NpProxy, RandomStub, patched, patched_attr, sarr
 from vf.engine.util import real, eq, le
-from vf.props.c04 import make_relational, make_finite
+from vf.props.c04 import make_relational, make_finite, make_symbolic_beta
 from vf.props.c05 import make_levelA
 from vf.props.c05 import max_model
 from vf.props.mcmc_common import Callbacks, Draws, exp_as_uf, mcmc_proxy, sym_mode_stats, isinf_model
@@ -192,7 +192,10 @@ def obligations(tier):
            # shifts of up to +-1e3 nats must not push the evidence bookkeeping out of double range
            make_finite((2, 1), (Fraction(0), H), Fraction(1), shifted=True),
            # volume-variation mode: the recorded evidence belongs to the recorded temperature (so that it shifts by beta_t*c)
-           make_levelA("vol", 2, "1/4")]
+           make_levelA("vol", 2, "1/4"),
+           # arbitrary real temperatures (no grid): weights and evidence move by exactly beta_final*c under logL -> logL + c
+           make_symbolic_beta((2, 1, 1), shift=True)]
     if tier == "thorough":
-        obs += [make_reweight(2, "1/8", "3/2", 16), make_reweight(3, "1/4", "2", 8), make_kernel("tpcn", 2, 1), make_kernel("rwm", 1, 2), make_warmup(3)]
+        obs += [make_reweight(2, "1/8", "3/2", 16), make_reweight(3, "1/4", "2", 8), make_kernel("tpcn", 2, 1), make_kernel("rwm", 1, 2), make_warmup(3),
+                make_symbolic_beta((1, 2, 1, 1), shift=True), make_symbolic_beta((2, 1), shift=True, free_final=True)]
     return obs
